@@ -48,4 +48,10 @@ Fixpoint bresenham_run (p : bparams) (s : bstate) (n : nat) : list point :=
 Definition line_points (l : line) : list point :=
   bresenham_run (bparams_new l) (BS (l_start l) 0) (Z.to_nat (major_length l)).
 
+(* mod.rs:177-180  Line::delta *)
+Definition line_delta (l : line) : point := psub (l_end l) (l_start l).
+
+(* mod.rs:89-94  Line::with_delta *)
+Definition with_delta (s d : point) : line := L s (P (px s + px d) (py s + py d)).
+
 Definition translate_line (l : line) (d : point) : line := L (padd (l_start l) d) (padd (l_end l) d).
